@@ -32,7 +32,7 @@ DESCRIBE = {
 }
 RULE = ("tables: EVERY valid segmentation of <=2 chromosomes of length <=6 (quick); thorough: every one of length <=7 plus "
         "length-8 chromosomes paired with every partner of length <=3 for the file-based `table` check, and EVERY one of length <=8 "
-        "for `extent_unit`; plus seeded random 3-4 chromosome tables (uniform, variable, longer last bin, one-bin chromosomes) and "
+        "for `extent_unit`; plus uniform two-chromosome tables of lengths 7..10 x widths 2..5, seeded random 3-4 chromosome tables (uniform, variable, longer last bin, one-bin chromosomes) and "
         "large-coordinate uniform tables (bin size up to 2^20, file coordinates < 2^31, unit level up to 2^40). Inside a table "
         "every in-bounds (chrom,s,e) is queried (large tables: all bin edges +-1 and a seeded sample); DataFrame-returning "
         "fetches and string forms run on every region of `full` tables (one chromosome, or both lengths <=3) and on every `stride`-th "
@@ -278,12 +278,36 @@ def _table(case):
 # units
 # ---------------------------------------------------------------------------------------------
 
+class _StandInMiss(KeyError):
+    """the dict-backed stand-in for the HDF5 group does not carry what the (refactored) code asked for"""
+
+
+class _Cols(dict):
+    def __missing__(self, k):
+        raise _StandInMiss(k)
+
+
 def _stored_columns(bins, dtype=np.int32):
     nch = nchroms(bins)
     offs = [sum(1 for b in bins if b[0] < c) for c in range(nch + 1)]  # marshalling of indexes/chrom_offset
-    d = {"indexes": {"chrom_offset": np.array(offs, dtype=np.int64)},
-         "bins": {"start": np.array([b[1] for b in bins], dtype=dtype)}}
+    lens = chrom_lens(bins)
+    d = _Cols({
+        "indexes": _Cols({"chrom_offset": np.array(offs, dtype=np.int64),
+                          "bin1_offset": np.zeros(len(bins) + 1, dtype=np.int64)}),
+        "bins": _Cols({"chrom": np.array([b[0] for b in bins], dtype=np.int32),
+                       "start": np.array([b[1] for b in bins], dtype=dtype),
+                       "end": np.array([b[2] for b in bins], dtype=dtype)}),
+        "chroms": _Cols({"length": np.array(lens, dtype=dtype)}),
+    })
     return d, offs
+
+
+def _skip_if_standin(ex):
+    """a refactor that reads other datasets than the stand-in offers is not a disagreement: the unit is then
+    not checkable this way (the file-based top check still is)"""
+    if ex.cls == "_StandInMiss":
+        return {"stats": {"standin_insufficient": 1}}
+    raise ex
 
 
 def _extent_unit(case):
@@ -297,27 +321,33 @@ def _extent_unit(case):
     bs = impl(util.get_binsize, gen.bins_df(bins))
     bs = None if bs is None else int(bs)
     nq = 0
-    for b in ([bs] if bs is None else [bs, None]):
-        model = drv().ask("C04.unit", chrom_offset=offs, starts=[x[1] for x in bins], binsize=b, queries=regions)
-        for (c, s, e), m in zip(regions, model):
-            reg = (names[c], s, e)
-            lo, hi = impl(region_to_extent, d, ids, reg, b)
-            o = impl(region_to_offset, d, ids, reg, b)
-            nq += 1
-            if [int(lo), int(hi)] != m or int(o) != m[0]:
-                return {"mismatch": True, "region": [c, s, e], "binsize": b, "impl_extent": [int(lo), int(hi)],
-                        "impl_offset": int(o), "model": m}
+    try:
+        for b in ([bs] if bs is None else [bs, None]):
+            model = drv().ask("C04.unit", chrom_offset=offs, starts=[x[1] for x in bins], binsize=b, queries=regions)
+            for (c, s, e), m in zip(regions, model):
+                reg = (names[c], s, e)
+                lo, hi = impl(region_to_extent, d, ids, reg, b)
+                o = impl(region_to_offset, d, ids, reg, b)
+                nq += 1
+                if [int(lo), int(hi)] != m or int(o) != m[0]:
+                    return {"mismatch": True, "region": [c, s, e], "binsize": b, "impl_extent": [int(lo), int(hi)],
+                            "impl_offset": int(o), "model": m}
+    except ImplRaised as ex:
+        return _skip_if_standin(ex)
     return {"stats": {"queries": nq}}
 
 
 def _float_division(case):
     b, off = case["b"], case["off"]
-    d = {"indexes": {"chrom_offset": np.array([off, off + 2 ** 62], dtype=np.int64)}}
+    d = _Cols({"indexes": _Cols({"chrom_offset": np.array([off, off + 2 ** 62], dtype=np.int64)})})
     model = drv().ask("C04.fixed", off=off, b=b, queries=case["queries"])
-    for (s, e), m in zip(case["queries"], model):
-        lo, hi = impl(region_to_extent, d, {"c0": 0}, ("c0", s, e), b)
-        if [int(lo), int(hi)] != m:
-            return {"mismatch": True, "b": b, "off": off, "region": [s, e], "impl": [int(lo), int(hi)], "model": m}
+    try:
+        for (s, e), m in zip(case["queries"], model):
+            lo, hi = impl(region_to_extent, d, {"c0": 0}, ("c0", s, e), b)
+            if [int(lo), int(hi)] != m:
+                return {"mismatch": True, "b": b, "off": off, "region": [s, e], "impl": [int(lo), int(hi)], "model": m}
+    except ImplRaised as ex:
+        return _skip_if_standin(ex)
     return None
 
 
@@ -474,6 +504,15 @@ def cases(tier, rng):
             yield "table", table_case(bins, stride=stride, salt=k, npairs=10 if full else 5)
             yield "extent_unit", {"bins": bins}
             k += 1
+    # fixed-width family beyond the enumeration above: lengths 7..10 x partner lengths x widths (shorter / equal last bins)
+    for L0 in (7, 8, 9, 10):
+        for L1 in (1, 2, 3, 5, 7, 10):
+            for b in (2, 3, 4, 5):
+                for sizes in ([L0, L1], [L1, L0]):
+                    bins = gen.uniform_bins(sizes, b)
+                    yield "table", table_case(bins, stride=12, salt=k, kind="uniform-family", npairs=4)
+                    yield "extent_unit", {"bins": bins}
+                    k += 1
     if thorough:
         eight = [gen.chrom_bins(0, ws) for ws in gen.compositions(8)]
         small = [ws for L in range(1, 4) for ws in gen.compositions(L)]
